@@ -705,6 +705,48 @@ func runC06(c *Ctx) {
 		}
 	}
 
+	// ---- 2b. hostile column TYPE strings in the header of a block with rows, decoded through automatic inference: sizes,
+	// precisions and definitions taken from the wire must be refused or handled, never trusted
+	{
+		hostile := []string{"FixedString(0)", "FixedString(-1)", "FixedString(-8)", "FixedString(3)", "FixedString(99999999999)", "FixedString(9223372036854775807)",
+			"FixedString(18446744073709551615)", "FixedString(+8)", "FixedString( 8 )", "Array(FixedString(-5))", "Nullable(FixedString(0))", "LowCardinality(FixedString(-1))",
+			"Array(FixedString(0))", "Decimal(0)", "Decimal(-3, 2)", "Decimal(77, 1)", "Decimal(4294967305, 1)", "DateTime64(99)", "DateTime64(-1)", "DateTime64(256)",
+			"Enum8()", "Enum8('a' = 99999999999999999999)", "Enum16('a' = -70000)", "Enum8('a' = 300)", "Array()", "Nullable()", "LowCardinality()", "Map(String,String)",
+			"IntervalFortnight", "Interval", "Nothing", "Nullable(Nothing)", "Array(Nothing)", "Tuple()", "Nested(a Int8)", "AggregateFunction(sum, Int8)", "SimpleAggregateFunction(sum, Int64)"}
+		n2b := len(hostile)
+		if c.Thorough {
+			n2b *= 6
+		}
+		for i := 0; i < n2b; i++ {
+			ts := hostile[i%len(hostile)]
+			if i >= len(hostile) {
+				ts = c19Malformed(r, c19Leaves())
+				if len(ts) > 4000 {
+					continue
+				}
+			}
+			rows := []int{1, 3, 8}[r.Intn(3)]
+			var e wireEnc
+			e.uvar(1)
+			e.buf = append(e.buf, 0)
+			e.uvar(2)
+			e.buf = append(e.buf, 0xff, 0xff, 0xff, 0xff)
+			e.uvar(0)
+			e.uvar(1) // columns
+			e.uvar(uint64(rows))
+			e.uvar(1)
+			e.buf = append(e.buf, 'x')
+			e.uvar(uint64(len(ts)))
+			e.buf = append(e.buf, ts...)
+			e.buf = append(e.buf, 0)
+			e.buf = append(e.buf, r.Bytes(8*rows+r.Intn(64))...)
+			cs := map[string]any{"kind": "block", "desc": "hostile type string through automatic inference", "type_string": trunc(ts, 200), "rows": rows, "hex": truncHex(e.buf)}
+			R.Case("hostile-type|"+ts+"|"+fmt.Sprint(rows), true)
+			R.Count("shape:hostile-type-string")
+			run(&c06Req{Kind: "block", Rev: 54460, Hex: hx(e.buf), Auto: true}, cs, "")
+		}
+	}
+
 	// ---- 3. protocol messages
 	nm := 40
 	if c.Thorough {
